@@ -26,3 +26,4 @@ _reg("C17", "interp")
 _reg("C27")
 _reg("C19")
 _reg("C24")
+_reg("C26")
